@@ -40,17 +40,20 @@ type c03Pred struct {
 }
 
 type c03Expect struct {
-	GroupBy []string   `json:"group_by"` // empty: whole-table form
-	SelCols []string   `json:"sel_cols"` // grouping columns in the select list
-	Star    bool       `json:"star"`
-	Aggs    []c03Agg   `json:"aggs"`
-	Where   *c03Pred   `json:"where,omitempty"`
-	Having  *c03Pred   `json:"having,omitempty"`
-	Query   string     `json:"query"`
-	Limit   int        `json:"limit,omitempty"` // LIMIT n on the grouped query (0 = none)
-	Wrap    string     `json:"wrap,omitempty"`  // "" | derived | cte: the grouped query sits in a derived table / CTE
-	Rows    []any      `json:"rows"`            // expected exact sequence
-	Lenient [][]string `json:"lenient"`         // per output row: aliases whose value the statement leaves open
+	GroupBy  []string   `json:"group_by"` // empty: whole-table form
+	SelCols  []string   `json:"sel_cols"` // grouping columns in the select list
+	Star     bool       `json:"star"`
+	Aggs     []c03Agg   `json:"aggs"`
+	Where    *c03Pred   `json:"where,omitempty"`
+	Having   *c03Pred   `json:"having,omitempty"`
+	Query    string     `json:"query"`
+	Limit    int        `json:"limit,omitempty"` // LIMIT n on the grouped query (0 = none)
+	Rows2    []any      `json:"rows2,omitempty"` // expected result of a second Exec when it differs (WHERE reads a variable the query writes)
+	Len2     [][]string `json:"lenient2,omitempty"`
+	HasRows2 bool       `json:"has_rows2,omitempty"`
+	Wrap     string     `json:"wrap,omitempty"` // "" | derived | cte: the grouped query sits in a derived table / CTE
+	Rows     []any      `json:"rows"`           // expected exact sequence
+	Lenient  [][]string `json:"lenient"`        // per output row: aliases whose value the statement leaves open
 }
 
 func (a c03Agg) sql() string {
@@ -301,7 +304,49 @@ func drawHavingPred(t *rapid.T, depth int) *c03Pred {
 	return &c03Pred{Conn: rapid.SampledFrom([]string{"AND", "OR"}).Draw(t, "h_conn"), Left: drawHavingPred(t, depth+1), Right: drawHavingPred(t, depth+1)}
 }
 
+// genC03WhereVar: WHERE compares with GETVAR('lim') and the select list moves 'lim' with SETVAR; the same Query is
+// executed twice. Each Exec partitions the rows that pass WHERE *at that Exec*.
+func genC03WhereVar(t *rapid.T) *Bundle {
+	n := rapid.IntRange(1, 8).Draw(t, "nrows")
+	table := []any{}
+	for i := 0; i < n; i++ {
+		table = append(table, map[string]any{
+			"g1": rapid.SampledFrom([]any{"a", "b", nil}).Draw(t, "g1"),
+			"g3": rapid.SampledFrom([]any{"u", "v"}).Draw(t, "g3"),
+			"y":  float64(rapid.IntRange(0, 3).Draw(t, "y")),
+			"z":  float64(rapid.IntRange(-2, 2).Draw(t, "z")),
+			"x":  nil,
+			"o":  map[string]any{"p": float64(rapid.IntRange(0, 3).Draw(t, "op"))},
+		})
+	}
+	k1 := float64(rapid.IntRange(-1, 2).Draw(t, "lim1"))
+	k2 := float64(rapid.IntRange(-1, 3).Draw(t, "lim2"))
+	gcols := rapid.SampledFrom([][]string{{"g1"}, {"g3"}, {"g1", "g3"}}).Draw(t, "gcols")
+	mk := func(k float64) *c03Expect {
+		return &c03Expect{GroupBy: gcols, SelCols: gcols, Aggs: []c03Agg{{Fn: "count", Alias: "r0"}, {Fn: "sum", Col: "y", Alias: "r1"}, {Fn: "max", Col: "z", Alias: "r2"}},
+			Where: &c03Pred{Col: "y", Op: ">", K: k}}
+	}
+	e := mk(k1)
+	q := fmt.Sprintf("SELECT %s, COUNT(*) AS r0, SUM(y) AS r1, MAX(z) AS r2, SETVAR('lim', %s) FROM t WHERE y > GETVAR('lim') GROUP BY %s", strings.Join(gcols, ", "), trimFloat(k2), strings.Join(gcols, ", "))
+	e.Query = q
+	rows, lenient, _ := referenceGroupBy(e, table)
+	e.Rows, e.Lenient = rows, lenient
+	second := k2
+	if len(rows) == 0 {
+		second = k1 // no group was projected, so SETVAR never ran
+	}
+	rows2, len2, _ := referenceGroupBy(mk(second), table)
+	e.Rows2, e.Len2, e.HasRows2 = rows2, len2, true
+	sim := casefmt.SimConfig{Strategy: "np", MapPolicy: rapid.SampledFrom([]string{"rotate", "random", "mixed"}).Draw(t, "map_policy"), MapSeed: uint64(rapid.IntRange(0, 1<<16).Draw(t, "map_seed"))}
+	c := oneClientCase("C03", sim, map[string]any{"t": table}, casefmt.Op{Doc: 0, Vars: 0, Query: q, ExecTwice: true})
+	c.Vars = []map[string]any{{"lim": k1}}
+	return &Bundle{Prop: "C03", Kind: "where_var", Case: c, Expect: mustJSON(e), Tags: []string{"where_var"}}
+}
+
 func genC03(t *rapid.T) *Bundle {
+	if rapid.IntRange(0, 19).Draw(t, "where_var") == 0 {
+		return genC03WhereVar(t)
+	}
 	n := rapid.IntRange(0, 8).Draw(t, "nrows")
 	mixed := rapid.IntRange(0, 4).Draw(t, "mixed_keys") == 0
 	keyDom := []any{nil, "a", "b"}
@@ -565,7 +610,24 @@ func evalC03(b *Bundle, r *Runner) []*Violation {
 			return []*Violation{mkViolation(b, cls, "", fmt.Sprintf("%s (map order %s/%d)\n on t=%s\n reference %s\n engine    %s", e.Query, sim.MapPolicy, sim.MapSeed,
 				docTable(b, "t"), canonText(e.Rows), compact(op.Rows)), o)}
 		}
-		if op.Exec2 != "" {
+		if op.Exec2 != "" && e.HasRows2 {
+			// the query moved the variable its WHERE reads: the second Exec partitions the rows passing WHERE now
+			got2, ok2 := asArray(normJSON(op.Rows2))
+			bad2 := op.Exec2 != "ok" || !ok2 || len(got2) != len(e.Rows2)
+			for i := 0; !bad2 && i < len(got2); i++ {
+				var open []string
+				if i < len(e.Len2) {
+					open = e.Len2[i]
+				}
+				if !c03RowEqual(got2[i], e.Rows2[i], open) {
+					bad2 = true
+				}
+			}
+			if bad2 {
+				return []*Violation{mkViolation(b, "GROUP_RESULT", "second_exec_after_variable_change", fmt.Sprintf("%s\n second Exec of the same Query (the first one set the variable WHERE compares with)\n reference %s\n engine    %s %s", e.Query, canonText(e.Rows2), op.Exec2, compact(op.Rows2)), o)}
+			}
+			r.Stats.probe("second_exec_after_variable_change")
+		} else if op.Exec2 != "" {
 			// a second Exec of the same Query is one more run: identical again
 			if op.Exec2 != "ok" || string(op.Rows2) != string(op.Rows) {
 				return []*Violation{mkViolation(b, "GROUP_RUN_TO_RUN", "second_exec", fmt.Sprintf("%s\n first Exec : %s\n second Exec of the same Query: %s %s", e.Query, compact(op.Rows), op.Exec2, compact(op.Rows2)), o)}
